@@ -29,7 +29,7 @@ type Profile struct {
 
 var famSib = []string{"lib/a", "lib/b", "lib.go", "lib-old", "lib0", "a", "test/x", "test/y", "test.c", "test-data", "test0"}
 var famNest = []string{"d/e/x", "d/e.x", "d/f", "g", "d/e/y/z", "d-o", "d.c", "d0", "ad/x", "da"}
-var famOdd = []string{"a b/c d", "p+q", "x(1)", "é/ü", "a.b/c", "my file.txt", "d x", "d x/y", "_u/v_", "日本/語.txt", "a[1]", "q*", "w?",
+var famOdd = []string{"assets.goit/data.txt", "sub/.goit/keep", "x.goit", "a b/c d", "p+q", "x(1)", "é/ü", "a.b/c", "my file.txt", "d x", "d x/y", "_u/v_", "日本/語.txt", "a[1]", "q*", "w?",
 	"100%/50%d", "%s", "a%20b", "b\\c", "c|d", "{e}", "^f$", "g'h", "i\"j", "k#l", "m;n", "o=p", "r&s", "t~u", "v@w", "x!y", "`z`", "a,b", "c:d", "<e>/f"}
 var famExt = []string{"src/a", "src/b", "src.c", "src-old", "src0", "src_x", "src2/c", "srcs", "src/sub/d", "src/sub.e"}
 var famIgn = []string{"f", "build/o", "sub/build/o", "rebuild/o", "a.exe", "a.exe.txt", "x.goit/f", "sub/.goit/f", ".goitx", "b.exe/z", "sub/c.exe"}
@@ -51,7 +51,7 @@ var defaultMsgs = []string{"raise coverage from 80% to 100%d of %s", "quote\npar
 
 func weightsDefault() map[string]int {
 	return map[string]int{"write": 14, "remove": 4, "rmdir": 2, "touch": 2, "rewrite": 2, "add": 14, "rm": 4, "commit": 9, "restore": 4, "restores": 4,
-		"reset": 5, "branch": 3, "branchd": 2, "branchr": 2, "switch": 3, "switchc": 2, "config": 2, "updateref": 2, "settz": 1, "ignore": 0, "raw": 0, "mkdir": 1, "writetree": 1, "cpdir": 1}
+		"reset": 5, "branch": 3, "branchd": 2, "branchr": 2, "switch": 3, "switchc": 2, "config": 2, "updateref": 2, "settz": 1, "ignore": 0, "raw": 0, "mkdir": 1, "writetree": 1, "cpdir": 1, "hashobject": 1}
 }
 
 func pickW(rng *rand.Rand, w map[string]int) string {
@@ -177,6 +177,24 @@ func (p *Profile) genEvent(rng *rand.Rand, tr *Trace) M {
 			}
 			out = append(out, EscS(s))
 		}
+		// a repeated argument, or a directory followed by one of the tracked paths beneath it: the second mention finds the
+		// state the first one left behind (drawn with the state's own paths, so it happens often enough to matter)
+		if len(out) > 0 && len(out) < 4 && rng.Intn(8) == 0 {
+			first := string(Unesc(out[0].(string)))
+			extra := first
+			if rng.Intn(2) == 0 {
+				var under []string
+				for _, t := range tracked {
+					if strings.HasPrefix(t, first+"/") {
+						under = append(under, t)
+					}
+				}
+				if len(under) > 0 {
+					extra = under[rng.Intn(len(under))]
+				}
+			}
+			out = append(out, EscS(extra))
+		}
 		return out
 	}
 	content := func() []byte {
@@ -193,6 +211,13 @@ func (p *Profile) genEvent(rng *rand.Rand, tr *Trace) M {
 	branchName := func(existing bool) string {
 		if hostile() {
 			return hostileBranches[rng.Intn(len(hostileBranches))]
+		}
+		if len(branches) > 0 && rng.Intn(12) == 0 {
+			// an existing branch spelled in another letter case: a different name on this file system
+			b := branches[rng.Intn(len(branches))]
+			if v := flipCase(b); v != b {
+				return v
+			}
 		}
 		if existing && len(branches) > 0 && rng.Intn(5) > 0 {
 			return branches[rng.Intn(len(branches))]
@@ -384,6 +409,24 @@ func (p *Profile) genEvent(rng *rand.Rand, tr *Trace) M {
 		return M{"ev": "write", "p": ".goitignore", "c": tr.AddContent([]byte(txt))}
 	case "writetree":
 		return M{"ev": "writetree"}
+	case "hashobject":
+		// several files in one call, longer ones before shorter ones as often as the other way round
+		if len(wtFiles) == 0 {
+			return nil
+		}
+		n := 1 + rng.Intn(4)
+		var ps []any
+		for i := 0; i < n; i++ {
+			f := wtFiles[rng.Intn(len(wtFiles))]
+			if strings.HasPrefix(f, "-") {
+				continue
+			}
+			ps = append(ps, EscS(f))
+		}
+		if len(ps) == 0 {
+			return nil
+		}
+		return M{"ev": "hashobject", "paths": ps}
 	case "raw":
 		return p.genRaw(rng, tr, wtFiles, tracked, branches)
 	}
@@ -743,4 +786,20 @@ func containsStr(l []string, x string) bool {
 		}
 	}
 	return false
+}
+
+// flipCase changes the case of the first letter of s that has one.
+func flipCase(s string) string {
+	b := []byte(s)
+	for i, c := range b {
+		switch {
+		case c >= 'a' && c <= 'z':
+			b[i] = c - 32
+			return string(b)
+		case c >= 'A' && c <= 'Z':
+			b[i] = c + 32
+			return string(b)
+		}
+	}
+	return s
 }
